@@ -1862,11 +1862,24 @@ def _value_classes(P: Program, fi: FunctionInfo, e: ast.AST, depth=3) -> List[Cl
                 idx = init.params.index(n.value.id) - 1
                 # instantiation sites of the class in its defining scope
                 scope = fi.cls.parent_func
-                body = scope.node if scope is not None else fi.module.tree
-                for c in ast.walk(body):
-                    if isinstance(c, ast.Call) and isinstance(c.func, ast.Name) and c.func.id == fi.cls.name \
-                            and len(c.args) > idx:
-                        out += _value_classes(P, scope or fi, c.args[idx], depth - 1) if scope else []
+                if scope is not None:
+                    for c in ast.walk(scope.node):
+                        if isinstance(c, ast.Call) and isinstance(c.func, ast.Name) and c.func.id == fi.cls.name \
+                                and len(c.args) > idx:
+                            out += _value_classes(P, scope, c.args[idx], depth - 1)
+                else:
+                    # a module-level class: every function of the module that instantiates it
+                    sites = 0
+                    for g_ in fi.module.functions.values():
+                        for c in walk_function(g_.node):
+                            if isinstance(c, ast.Call) and isinstance(c.func, ast.Name) and c.func.id == fi.cls.name and len(c.args) > idx:
+                                got = _value_classes(P, g_, c.args[idx], depth - 1)
+                                sites += 1
+                                if not got:
+                                    return []
+                                out += got
+                    if not sites:
+                        return []
         return out
     return []
 
